@@ -455,6 +455,10 @@ func writeSummary(outDir string, s *Summary) error {
 	return os.WriteFile(filepath.Join(outDir, "summary_"+s.Property+".json"), b, 0o644)
 }
 
+// cfgOverride, when set, replaces the default configuration line of the cases files.
+var cfgOverride string
+var extraImports string
+
 // writeInstCases writes sharded cases files for recorded steps.
 func writeInstCases(outDir, prop, checkFn string, g63 bool, adminIPs []string, fx *Fixture, steps []StepRec, shardSize int) ([]string, error) {
 	return writeInstCasesFx(outDir, prop, checkFn, g63, adminIPs, fx, steps, shardSize)
@@ -468,8 +472,12 @@ func writeInstCasesFx(outDir, prop, checkFn string, g63 bool, adminIPs []string,
 			hi = len(steps)
 		}
 		var b strings.Builder
-		b.WriteString("From DV Require Import Corr.CheckInst.\nLocal Open Scope Z_scope.\nLocal Open Scope string_scope.\n")
-		fmt.Fprintf(&b, "Definition cfg : scfg := mkcfg %s %s %s %s.\n", coqBool(g63), coqStrList(adminIPs), coqAccounts(fx), coqPermTbl(stdPermTbl))
+		b.WriteString("From DV Require Import Corr.CheckInst " + extraImports + ".\nLocal Open Scope Z_scope.\nLocal Open Scope string_scope.\n")
+		if cfgOverride != "" {
+			fmt.Fprintf(&b, "Definition cfg : scfg := %s.\n", cfgOverride)
+		} else {
+			fmt.Fprintf(&b, "Definition cfg : scfg := mkcfg %s %s %s %s.\n", coqBool(g63), coqStrList(adminIPs), coqAccounts(fx), coqPermTbl(stdPermTbl))
+		}
 		fmt.Fprintf(&b, "Definition keys : list N := %s.\n", coqKeyIDs(fx))
 		b.WriteString("Definition cases : list icase := [\n")
 		for i, st := range steps[lo:hi] {
